@@ -250,6 +250,48 @@ def check_package(spec, fmt, level):
                 bad("to_str:compressed-garbage", "to_str of a compressed envelope does not round-trip")
         except Exception:  # noqa: BLE001
             bad("to_str:compressed-garbage", "to_str returned a string for a compressed envelope that from_str cannot read")
+    # ---- history of the decoder / of the configuration object (JSON format)
+    if fmt == 63 and q is not None:
+        # (1) a truncated envelope is refused, and the complete one still decodes afterwards
+        if len(data) > 24:
+            for cut in (10 + (len(data) - 10) // 2, len(data) - 1):
+                try:
+                    Package.from_bytes(data[:cut])
+                    if level is not None:
+                        bad("truncated:accepted", f"from_bytes accepted the envelope cut to {cut} of {len(data)} bytes")
+                except Exception:  # noqa: BLE001
+                    pass
+                try:
+                    if not _same_docs(docs_of(Package.from_bytes(data)), before):
+                        bad("after-refused-decode:differs", "the complete envelope decodes differently after a truncated one was refused")
+                except Exception as e:  # noqa: BLE001
+                    bad("after-refused-decode:raised", f"the complete envelope is refused after a truncated one was: {type(e).__name__}: {str(e)[:120]}")
+        # (2) every decode is a fresh package: editing the first result does not show in the second
+        try:
+            q1 = Package.from_bytes(data)
+            if q1.modules:
+                m0 = q1.modules[0]
+                m0[m0.root].metadata["edited-after-decode"] = True
+                m0.add_node(m0[m0.root].op, m0.root)
+            elif q1.extensions:
+                q1.extensions[0].runtime_reqs.add("edited.after.decode")
+            if not _same_docs(docs_of(Package.from_bytes(data)), before):
+                bad("decode-twice:shared-result", "a second decode of the same bytes shows the edits made to the first result")
+        except Exception as e:  # noqa: BLE001
+            bad("decode-twice:raised", f"{type(e).__name__}: {str(e)[:120]}")
+        # (3) one configuration object used, changed, used again: header and payload follow the current fields
+        for other in ([0, 3] if level is None else [None]):
+            try:
+                cfg2 = EnvelopeConfig(format=EnvelopeFormat(fmt), zstd=level)
+                p.to_bytes(cfg2)
+                cfg2.zstd = other
+                d2 = p.to_bytes(cfg2)
+                if bool(d2[9] & 1) != (other is not None) or bool(d2[9] & 1) != (d2[10:14] == ZSTD_MAGIC):
+                    bad("config-reused:header-vs-payload", f"config first used with zstd={level}, then set to zstd={other}: flags {d2[9]:#010b}, payload {'is' if d2[10:14] == ZSTD_MAGIC else 'is not'} a zstd frame")
+                elif not _same_docs(docs_of(Package.from_bytes(d2)), before):
+                    bad("config-reused:roundtrip", f"config first used with zstd={level}, then zstd={other}: package differs after the round trip")
+            except Exception as e:  # noqa: BLE001
+                bad("config-reused:raised", f"config first used with zstd={level}, then zstd={other}: {type(e).__name__}: {str(e)[:120]}")
     # the same Package object encoded again after its (mutable) contents changed
     if fmt == 63 and (spec[0] or spec[1]):
         try:
